@@ -199,7 +199,7 @@ func body(r *explore.Run, rep *report.R, sc string, depth int, which string, sta
 		Spec:       v1.ProviderSpec{PackageSpec: v1.PackageSpec{Package: repoName + ":v1", RevisionHistoryLimit: &one}},
 	}
 	s.Seed(p)
-	inj := &xrh.FaultInjector{Run: r, Reads: false}
+	inj := (&xrh.FaultInjector{Run: r, Reads: false}).WithErrClasses(s)
 	s.Inj = inj
 	c := s.Client("pkgmgr")
 	rec := pkgh.NewProviderManager(c, reg)
